@@ -12,7 +12,7 @@ contract field Proxy.getCurCfg()
   ensures result != nil && result.ExtraConfig != nil
   modifies nothing
 contract field Proxy.getJob(jobName)
-  ensures result != nil ==> result.Config != nil
+  ensures result != nil ==> result.Config != nil && result.Cli != nil
   modifies nothing
 contract field Proxy.getStatus()
   ensures forall h, st in result :: st != nil && wfWindow(st)
